@@ -205,8 +205,12 @@ func diffAt(a, b []byte) string {
 func checkC01(c *Ctx) {
 	c.Assume("gofmt-canonical = fixpoint of go/format.Source (checked per file, not assumed)")
 	c.Assume("go/parser, go/printer are trusted")
-	if os.Getenv("VERIF_PART") == "reuse" { // development aid: one component only
+	switch os.Getenv("VERIF_PART") { // development aid: one component only
+	case "reuse":
 		c01Reuse(c)
+		return
+	case "linkmcd":
+		c01LinkMCOf(c, "LinkMCD", "MaxDecls", "File", false)
 		return
 	}
 	max := 120
